@@ -90,6 +90,7 @@ impl Hash for St {
 
 /// action: 0..9 = advance the clock by ADVANCES[a] then next(); 9..18 = same on a clone of the schedule; 18..21 = nth(NTH[a - 18])
 pub struct Machine {
+    exprs: Vec<String>,
     parsed: Vec<(CronSchedule, Sets)>,
     starts: Vec<i64>,
     max_depth: u8,
@@ -97,8 +98,25 @@ pub struct Machine {
 }
 
 /// one step on the real iterator and the model; returns (new real, new last, disagreement)
+thread_local! {
+    /// when set, "continue on a copy" copies with Clone::clone_from into a freshly parsed schedule of this text
+    static CLONE_FROM_EXPR: std::cell::RefCell<Option<String>> = std::cell::RefCell::new(None);
+}
+
 fn step(real: &CronSchedule, sets: &Sets, clock: i64, last: Option<i64>, clone_first: bool) -> (CronSchedule, Option<i64>, Option<String>) {
-    let mut it = if clone_first { real.clone().clone() } else { real.clone() };
+    let mut it = if clone_first {
+        // two ways of continuing on a copy: clone(), and clone_from() into another (fresh) schedule
+        let via_clone_from = CLONE_FROM_EXPR.with(|e| e.borrow().clone()).and_then(|e| CronSchedule::parse(&e).ok()).map(|mut fresh| {
+            fresh.clone_from(real);
+            fresh
+        });
+        match via_clone_from {
+            Some(f) if (clock + last.unwrap_or(0)) % 2 == 0 => f,
+            _ => real.clone().clone(),
+        }
+    } else {
+        real.clone()
+    };
     pin_clock(clock);
     let now_min = clock.div_euclid(60) + EPOCH_MIN;
     let after = last.map_or(now_min, |l| l.max(now_min));
@@ -195,6 +213,7 @@ impl Model for Machine {
             return Some(St { sched: s.sched, real, clock: s.clock, last, bad, depth: s.depth + 1 });
         }
         let clock = s.clock + ADVANCES[(a % 9) as usize];
+        CLONE_FROM_EXPR.with(|e| *e.borrow_mut() = Some(self.exprs[s.sched].clone()));
         let (real, last, bad) = step(&s.real, &self.parsed[s.sched].1, clock, s.last, a >= 9);
         Some(St { sched: s.sched, real, clock, last, bad, depth: s.depth + 1 })
     }
@@ -205,11 +224,13 @@ impl Model for Machine {
 
 fn build(thorough: bool, depth: u8, transitions: Arc<AtomicU64>, errors: &mut Vec<String>) -> Machine {
     let mut parsed = vec![];
+    let mut exprs = vec![];
     for e in schedules(thorough) {
         match (CronSchedule::parse(e), rc::parse(e)) {
             (Ok(s), Verdict::Accept(sets)) => {
                 if rc::next_after(&sets, starts()[0].div_euclid(60) + EPOCH_MIN).is_some() {
                     parsed.push((s, sets));
+                    exprs.push(e.to_string());
                 } else {
                     errors.push(format!("menu schedule {:?} is unsatisfiable", e));
                 }
@@ -217,12 +238,12 @@ fn build(thorough: bool, depth: u8, transitions: Arc<AtomicU64>, errors: &mut Ve
             (r, v) => errors.push(format!("menu schedule {:?} does not parse on both sides: real ok={} reference {:?} (C16 decides this)", e, r.is_ok(), matches!(v, Verdict::Accept(_)))),
         }
     }
-    Machine { parsed, starts: starts(), max_depth: depth, transitions }
+    Machine { exprs, parsed, starts: starts(), max_depth: depth, transitions }
 }
 
 pub fn run(ctx: &Ctx) -> i32 {
     let mut rep = Report::new(ctx);
-    rep.rule = "states = distinct (schedule, pinned clock, last result, live iterator) tuples reached by BFS; transitions = real next() calls under a pinned clock, each compared with the brute-force reference 'earliest whole minute later than max(current minute, previous result) whose month, hour, minute match and whose day matches (dom OR dow when both restricted)'; results must carry zero seconds; a cloned schedule must continue identically; Iterator::nth(k) (which skip and step_by are built on) must equal k + 1 calls of next()".into();
+    rep.rule = "states = distinct (schedule, pinned clock, last result, live iterator) tuples reached by BFS; transitions = real next() calls under a pinned clock, each compared with the brute-force reference 'earliest whole minute later than max(current minute, previous result) whose month, hour, minute match and whose day matches (dom OR dow when both restricted)'; results must carry zero seconds; a copied schedule (clone(), or clone_from() into a freshly parsed one) must continue identically; Iterator::nth(k) (which skip and step_by are built on) must equal k + 1 calls of next()".into();
     rep.assumptions = vec![
         "schedules on which 'restricted' is ambiguous between set-based and star-based reading (*/2 or 1-31 in day-of-month, 0-6 in day-of-week) are not in the menu; unsatisfiable schedules are excluded".into(),
         "start instants lie in 2021-2028, around 2096-2104 (the eight-year gap between leap days at 2100) and in 2400; the calendar functions the iterator uses are covered over the whole range by C01, C02, C04, C05".into(),
@@ -283,6 +304,7 @@ pub fn run(ctx: &Ctx) -> i32 {
                 Ok(r) => r,
                 Err(_) => return,
             };
+            CLONE_FROM_EXPR.with(|e| *e.borrow_mut() = Some(scheds[si].to_string()));
             let mut k = i % per;
             let (mut clock, mut last) = (start, None);
             let mut actions = vec![];
@@ -346,6 +368,7 @@ pub fn replay(_op: &str, case: &Value, acc: &mut Acc) -> bool {
         (Ok(s), Verdict::Accept(sets)) => (s, sets),
         _ => return false,
     };
+    CLONE_FROM_EXPR.with(|e| *e.borrow_mut() = Some(expr.to_string()));
     let mut clock = case["start"].as_i64().unwrap();
     let mut last = None;
     for (k, a) in case["actions"].as_array().unwrap().iter().enumerate() {
